@@ -127,6 +127,8 @@ def coq_fields(graph):
 def check_c19(v: Verdict, t1_summary, n_sched, stress_rounds):
     rng = random.Random(v.seed * 7919 + 19)
     tl = bool((t1_summary.get("threads") or {}).get("thread_local", True))
+    # the model graphs are attrs classes: their attribute lookups go through find_structure_handler
+    fsh = bool((t1_summary.get("threads") or {}).get("find_structure_handler_catches", True))
     cases, meta = [], []
     hist = {"forced_schedules": 0, "what_if_shared_schedules": 0, "shared_failures_exhibited": 0, "threads_2": 0, "threads_3": 0,
             "stress_rounds": 0, "stress_calls": 0, "directions": {"DSt": 0, "DUn": 0}}
@@ -155,8 +157,8 @@ def check_c19(v: Verdict, t1_summary, n_sched, stress_rounds):
                     "working_set": "shared (what-if: module attribute rebound by the harness)" if shared else "as in the source",
                     "observed": obs, "errors": errs}
             if direction == "DSt" and graph["fields"] is not None:
-                cases.append("obs_eqb (observe (mrun %s %s (init %s) %s)) %s" % (
-                    coq_fields(graph), "true" if scope_tl else "false",
+                cases.append("obs_eqb (observe (mrun %s %s %s (init %s) %s)) %s" % (
+                    coq_fields(graph), "true" if scope_tl else "false", "true" if fsh else "false",
                     "[" + "; ".join("[" + "; ".join(f"{c}%N" for c in r) + "]" for r in reqs) + "]",
                     "[" + "; ".join(f"{t}%nat" for t in sched) + "]",
                     "[" + "; ".join(f"({'true' if f else 'false'}, [" + "; ".join(f"{c}%N" for c in fin) + "])" for f, fin in obs) + "]"))
